@@ -142,8 +142,6 @@ Proof.
   - apply forallb_forall. intros c Hc. apply Z.leb_le. auto.
 Qed.
 
-Definition nan_out (lnan rnan : bool) (lo hi x : Z) : Prop :=
-  (x < lo /\ lnan = true) \/ (hi < x /\ rnan = true).
 
 (* ---- nearest, ascending coordinate ------------------------------------------------- *)
 Lemma nearest_asc cm lnan rnan cs de x :
@@ -228,9 +226,61 @@ Proof.
   - exists (j * d + p), d. split; auto. apply quot_frac; lia.
 Qed.
 
+(* general form of the interpolated value for an arbitrary index vector fp *)
+Lemma seg_gen : forall xp fp x, asc xp = true -> length fp = length xp -> hd 0 xp <= x < last xp 0 ->
+  exists j d p, seg x xp fp = FNum (nth j fp 0 * d + (nth (S j) fp 0 - nth j fp 0) * p) d
+    /\ 0 < d /\ 0 <= p < d /\ (S j < length xp)%nat
+    /\ nth j xp 0 + p = x /\ nth (S j) xp 0 = nth j xp 0 + d.
+Proof.
+  induction xp as [|x0 t IH]; intros fp x Ha Hl Hx; [simpl in Hx; lia|].
+  destruct t as [|x1 t]; [simpl in Hx; lia|].
+  destruct fp as [|y0 [|y1 u]]; cbn [length] in Hl; try lia.
+  apply asc_cons in Ha as [H01 Ha]. rewrite seg_cons2.
+  destruct (x <? x1) eqn:E.
+  - apply Z.ltb_lt in E. exists 0%nat, (x1 - x0), (x - x0). cbn [hd] in Hx.
+    cbn [nth length]. repeat split; try lia.
+  - apply Z.ltb_ge in E. rewrite last_cons2 in Hx.
+    destruct (IH (y1 :: u) x Ha) as (j & d & p & Hs & Hd & Hp & Hj & Hn & Hn').
+    { cbn [length] in *. lia. } { cbn [hd]. lia. }
+    exists (S j), d, p. rewrite Hs. cbn [nth length] in *. repeat split; try lia.
+Qed.
+
+Lemma seg_last_gen : forall xp fp x, asc xp = true -> xp <> [] -> length fp = length xp ->
+  x = last xp 0 -> seg x xp fp = FNum (last fp 0) 1.
+Proof.
+  induction xp as [|x0 t IH]; intros fp x Ha Hne Hl Hx; [congruence|].
+  destruct t as [|x1 t].
+  - destruct fp as [|y0 [|y1 u]]; cbn [length] in Hl; try lia. reflexivity.
+  - destruct fp as [|y0 [|y1 u]]; cbn [length] in Hl; try lia.
+    apply asc_cons in Ha as [H01 Ha]. rewrite seg_cons2. rewrite last_cons2 in Hx.
+    assert (x1 <= x).
+    { subst x. rewrite <- (nth_last_Z (x1 :: t)) by congruence.
+      change x1 with (nth 0 (x1 :: t) 0) at 1. apply asc_nth_le; auto. cbn [length]; lia. }
+    destruct (x <? x1) eqn:E; [apply Z.ltb_lt in E; lia|].
+    rewrite (IH (y1 :: u) x Ha) by (auto; try congruence; cbn [length] in *; lia).
+    reflexivity.
+Qed.
+
+Lemma nth_zseq : forall n k j, (j < n)%nat -> nth j (zseq k n) 0 = k + Z.of_nat j.
+Proof.
+  induction n as [|n IH]; intros k j H; [lia|]. rewrite zseq_S. destruct j as [|j]; cbn [nth]; [lia|].
+  rewrite IH by lia. lia.
+Qed.
+Lemma zseq_length : forall n k, length (zseq k n) = n.
+Proof. induction n; intros; cbn [zseq length]; auto. Qed.
+
+Definition cidx (B : Z) (len : nat) : list Z := map (Z.min B) (zseq 0 len).
+Lemma cidx_length B len : length (cidx B len) = len.
+Proof. unfold cidx. rewrite map_length. apply zseq_length. Qed.
+Lemma nth_cidx B len j : 0 <= B -> (j < len)%nat -> nth j (cidx B len) 0 = Z.min B (Z.of_nat j).
+Proof.
+  intros HB Hj. unfold cidx.
+  transitivity (nth j (map (Z.min B) (zseq 0 len)) (Z.min B 0)); [f_equal; lia|].
+  rewrite map_nth, nth_zseq by auto. f_equal.
+Qed.
+
 Lemma bounds_asc cm lnan rnan dv es x :
   asc es = true -> length es = S (length dv) -> (0 < length dv)%nat ->
-  (rnan = true -> x <> last es 0) ->
   match cell_one MBounds cm lnan rnan false dv es x with
   | Idx i => contains (pairs es) x i = true
        \/ (x < hd 0 es /\ lnan = false /\ i = 0)
@@ -239,49 +289,51 @@ Lemma bounds_asc cm lnan rnan dv es x :
   | Masked => cm = CMask /\ nan_out lnan rnan (hd 0 es) (last es 0) x
   end.
 Proof.
-  intros Ha Hlen Hdv Htop.
+  intros Ha Hlen Hdv.
   assert (Hne : es <> []) by (destruct es; [discriminate | congruence]).
   unfold cell_one, fidx_one, to_cell, interp1, lenZ. cbn [is_bounds is_exact andb].
+  fold (cidx (Z.of_nat (length dv) - 1) (length es)).
+  set (B := Z.of_nat (length dv) - 1). assert (HB : 0 <= B) by (unfold B; lia).
+  assert (Hcl := cidx_length B (length es)).
   destruct (last es 0 <? x) eqn:E1.
-  { apply Z.ltb_lt in E1. destruct rnan; cbn [negb].
+  { apply Z.ltb_lt in E1. destruct rnan.
     - destruct cm; [right; right; right | | right; right; right];
         unfold nan_out; repeat split; auto; try discriminate.
-    - rewrite zseq_last by lia. unfold fmin.
-      replace ((Z.of_nat (length dv) - 1) * 1 <? 0 + Z.of_nat (length es) - 1) with true
-        by (symmetry; apply Z.ltb_lt; lia).
-      right; right; left. rewrite Z.quot_1_r. auto. }
+    - right; right; left. repeat split; auto.
+      rewrite <- (nth_last_Z (cidx B (length es))) by (intros E; rewrite E in Hcl; cbn in Hcl; lia).
+      rewrite Hcl, nth_cidx by lia. rewrite Z.quot_1_r. unfold B. lia. }
   apply Z.ltb_ge in E1.
   destruct (x <? hd 0 es) eqn:E2.
   { apply Z.ltb_lt in E2. destruct lnan.
-    - destruct rnan; cbn [negb fmin];
-        (destruct cm; [right; right; right | | right; right; right];
-         unfold nan_out; repeat split; auto; try discriminate).
-    - rewrite zseq_hd by lia.
-      assert (F : fmin (Z.of_nat (length dv) - 1) (FNum 0 1) = FNum 0 1).
-      { unfold fmin. replace ((Z.of_nat (length dv) - 1) * 1 <? 0) with false; auto.
-        symmetry; apply Z.ltb_ge; lia. }
-      destruct rnan; cbn [negb]; rewrite ?F; right; left; auto. }
+    - destruct cm; [right; right; right | | right; right; right];
+         unfold nan_out; repeat split; auto; try discriminate.
+    - right; left. repeat split; auto.
+      replace (hd 0 (cidx B (length es))) with (nth 0 (cidx B (length es)) 0)
+        by (destruct (cidx B (length es)); reflexivity).
+      rewrite nth_cidx by lia. rewrite Z.quot_1_r. lia. }
   apply Z.ltb_ge in E2.
   destruct (Z.eq_dec x (last es 0)) as [Hl | Hl].
-  - destruct rnan; [exfalso; apply Htop; auto|]. cbn [negb].
-    rewrite seg_last by auto. unfold fmin.
-    replace ((Z.of_nat (length dv) - 1) * 1 <? 0 + Z.of_nat (length es) - 1) with true
-      by (symmetry; apply Z.ltb_lt; lia).
-    left. rewrite Z.quot_1_r.
-    replace (Z.of_nat (length dv) - 1) with (Z.of_nat (length dv - 1)) by lia.
+  - rewrite seg_last_gen by auto.
+    rewrite <- (nth_last_Z (cidx B (length es))) by (intros E; rewrite E in Hcl; cbn in Hcl; lia).
+    rewrite Hcl, nth_cidx by lia. left. rewrite Z.quot_1_r.
+    replace (Z.min B (Z.of_nat (length es - 1))) with (Z.of_nat (length dv - 1)) by (unfold B; lia).
     apply contains_intro; auto; [lia|].
     replace (S (length dv - 1)) with (length es - 1)%nat by lia.
     rewrite nth_last_Z by auto. split; [|lia].
     rewrite Hl, <- (nth_last_Z es Hne). apply asc_nth_le; auto. lia.
-  - destruct (seg_canon es 0 x Ha) as (j & d & p & Hs & Hd & Hp & Hj & Hn & Hn'); [lia|].
-    rewrite Hs. cbn [Z.add].
+  - destruct (seg_gen es (cidx B (length es)) x Ha Hcl) as (j & d & p & Hs & Hd & Hp & Hj & Hn & Hn'); [lia|].
+    rewrite Hs, !nth_cidx by lia. left.
     assert (Hc : contains (pairs es) x (Z.of_nat j) = true)
       by (apply contains_intro; auto; lia).
-    destruct rnan; cbn [negb].
-    + left. rewrite quot_frac by lia. exact Hc.
-    + destruct (fmin_frac (Z.of_nat (length dv) - 1) (Z.of_nat j) d p) as (n' & d' & Hf & Hq);
-        try lia.
-      rewrite Hf. left. rewrite Hq. exact Hc.
+    destruct (Z.eq_dec (Z.of_nat j) B) as [Ej | Ej].
+    + replace (Z.min B (Z.of_nat (S j))) with B by lia. replace (Z.min B (Z.of_nat j)) with B by lia.
+      replace (B * d + (B - B) * p) with (B * d + 0) by ring. rewrite quot_frac by lia.
+      rewrite <- Ej. exact Hc.
+    + assert (Z.of_nat j < B) by (unfold B in *; lia).
+      replace (Z.min B (Z.of_nat (S j))) with (Z.of_nat j + 1) by lia.
+      replace (Z.min B (Z.of_nat j)) with (Z.of_nat j) by lia.
+      replace (Z.of_nat j * d + (Z.of_nat j + 1 - Z.of_nat j) * p) with (Z.of_nat j * d + p) by ring.
+      rewrite quot_frac by lia. exact Hc.
 Qed.
 
 (* ---- exact, ascending coordinate ------------------------------------------------------ *)
@@ -318,7 +370,368 @@ Proof.
     destruct (asc_In_cases cs j x Ha Hin Hj); lia.
 Qed.
 
-(* ---- whole call, ascending direction --------------------------------------------------- *)
+(* ==== descending coordinates: xp = rev, idx = n-1 .. 0 ==================================== *)
+Fixpoint zdown (k : Z) (n : nat) : list Z :=
+  match n with O => [] | S n' => k :: zdown (k - 1) n' end.
+Lemma zdown_S k n : zdown k (S n) = k :: zdown (k - 1) n.
+Proof. reflexivity. Qed.
+
+Lemma zdown_snoc : forall n a, zdown a n ++ [a - Z.of_nat n] = zdown a (S n).
+Proof.
+  induction n as [|n IH]; intros a.
+  - cbn. f_equal. lia.
+  - rewrite zdown_S. cbn [app]. rewrite (zdown_S a (S n)). f_equal.
+    replace (a - Z.of_nat (S n)) with (a - 1 - Z.of_nat n) by lia. apply IH.
+Qed.
+
+Lemma rev_zseq : forall n k, rev (zseq k n) = zdown (k + Z.of_nat n - 1) n.
+Proof.
+  induction n as [|n IH]; intros k; [reflexivity|].
+  rewrite zseq_S. cbn [rev]. rewrite IH.
+  replace (k + 1 + Z.of_nat n - 1) with (k + Z.of_nat (S n) - 1) by lia.
+  replace k with (k + Z.of_nat (S n) - 1 - Z.of_nat n) at 2 by lia.
+  apply zdown_snoc.
+Qed.
+
+Lemma zdown_hd k n : (0 < n)%nat -> hd 0 (zdown k n) = k.
+Proof. destruct n; [lia | reflexivity]. Qed.
+
+Lemma zdown_last : forall n k, (0 < n)%nat -> last (zdown k n) 0 = k - Z.of_nat n + 1.
+Proof.
+  induction n as [|n IH]; intros k H; [lia|]. destruct n as [|n].
+  - cbn. lia.
+  - change (zdown k (S (S n))) with (k :: (k - 1) :: zdown (k - 1 - 1) n). rewrite last_cons2.
+    change ((k - 1) :: zdown (k - 1 - 1) n) with (zdown (k - 1) (S n)). rewrite IH by lia.
+    rewrite !Nat2Z.inj_succ. lia.
+Qed.
+
+Lemma seg_canon_d : forall xp k x, asc xp = true -> hd 0 xp <= x < last xp 0 ->
+  exists j d p, seg x xp (zdown k (length xp)) = FNum ((k - Z.of_nat j) * d - p) d
+    /\ 0 < d /\ 0 <= p < d /\ (S j < length xp)%nat
+    /\ nth j xp 0 + p = x /\ nth (S j) xp 0 = nth j xp 0 + d.
+Proof.
+  induction xp as [|x0 t IH]; intros k x Ha Hx; [simpl in Hx; lia|].
+  destruct t as [|x1 t]; [simpl in Hx; lia|].
+  apply asc_cons in Ha as [H01 Ha].
+  cbn [length]. rewrite !zdown_S, seg_cons2.
+  destruct (x <? x1) eqn:E.
+  - apply Z.ltb_lt in E. exists 0%nat, (x1 - x0), (x - x0). cbn [hd] in Hx.
+    cbn [nth length]. repeat split; try lia. f_equal; ring.
+  - apply Z.ltb_ge in E. rewrite last_cons2 in Hx.
+    destruct (IH (k - 1) x Ha) as (j & d & p & Hs & Hd & Hp & Hj & Hn & Hn').
+    { cbn [hd]. lia. }
+    exists (S j), d, p. cbn [length] in Hs, Hj. rewrite zdown_S in Hs. rewrite Hs.
+    cbn [nth length] in *. repeat split; try lia.
+    f_equal. rewrite Nat2Z.inj_succ. ring.
+Qed.
+
+Lemma seg_last_d : forall xp k x, asc xp = true -> xp <> [] -> x = last xp 0 ->
+  seg x xp (zdown k (length xp)) = FNum (k - Z.of_nat (length xp) + 1) 1.
+Proof.
+  induction xp as [|x0 t IH]; intros k x Ha Hne Hx; [congruence|].
+  destruct t as [|x1 t].
+  - cbn. f_equal. lia.
+  - apply asc_cons in Ha as [H01 Ha]. cbn [length]. rewrite !zdown_S, seg_cons2.
+    rewrite last_cons2 in Hx.
+    assert (x1 <= x).
+    { subst x. rewrite <- (nth_last_Z (x1 :: t)) by congruence.
+      change x1 with (nth 0 (x1 :: t) 0) at 1. apply asc_nth_le; auto. cbn [length]; lia. }
+    destruct (x <? x1) eqn:E; [apply Z.ltb_lt in E; lia|].
+    change (k - 1 :: zdown (k - 1 - 1) (length t)) with (zdown (k - 1) (length (x1 :: t))).
+    rewrite (IH (k - 1) x Ha) by (auto; congruence). f_equal. cbn [length]. lia.
+Qed.
+
+(* sortedness of the reversed list *)
+Lemma asc_snoc : forall l a, asc l = true -> (l <> [] -> last l 0 < a) -> asc (l ++ [a]) = true.
+Proof.
+  induction l as [|b l IH]; intros a Ha Hl; [reflexivity|].
+  destruct l as [|c l].
+  - cbn [app]. apply asc_cons. split; [apply Hl; congruence | reflexivity].
+  - apply asc_cons in Ha as [Hbc Ha]. change ((b :: c :: l) ++ [a]) with (b :: (c :: (l ++ [a]))).
+    apply asc_cons. split; [exact Hbc|]. apply (IH a Ha). intros _. rewrite last_cons2 in Hl.
+    apply Hl. congruence.
+Qed.
+
+Lemma desc_cons a b l : desc (a :: b :: l) = true <-> b < a /\ desc (b :: l) = true.
+Proof.
+  unfold desc, all_neg. cbn [diffs forallb]. rewrite andb_true_iff, Z.ltb_lt.
+  split; intros [H1 H2]; split; auto; lia.
+Qed.
+
+Lemma hd_rev : forall (l : list Z), hd 0 (rev l) = last l 0.
+Proof.
+  induction l as [|a l IH]; [reflexivity|]. cbn [rev]. destruct l as [|b l]; [reflexivity|].
+  rewrite last_cons2, <- IH. destruct (rev (b :: l)) eqn:E; [|reflexivity].
+  apply (f_equal (@length Z)) in E. rewrite rev_length in E. discriminate.
+Qed.
+Lemma last_rev (l : list Z) : last (rev l) 0 = hd 0 l.
+Proof. destruct l as [|a l]; [reflexivity|]. cbn [rev hd]. apply last_last. Qed.
+
+Lemma desc_rev_asc : forall l, desc l = true -> asc (rev l) = true.
+Proof.
+  induction l as [|a l IH]; intros H; [reflexivity|]. cbn [rev].
+  destruct l as [|b l]; [reflexivity|].
+  apply desc_cons in H as [Hba H]. apply asc_snoc; [apply IH; exact H|].
+  intros _. rewrite last_rev. cbn [hd]. exact Hba.
+Qed.
+
+Lemma rint_up m d p : 0 < d -> 0 <= p < d ->
+  (rint (m * d + p) d = m /\ 2 * p <= d) \/ (rint (m * d + p) d = m + 1 /\ d <= 2 * p).
+Proof.
+  intros Hd Hp. rewrite rint_frac by lia.
+  destruct (2 * p <? d) eqn:C1; [apply Z.ltb_lt in C1; left; lia|]. apply Z.ltb_ge in C1.
+  destruct (d <? 2 * p) eqn:C2; [apply Z.ltb_lt in C2; right; lia|]. apply Z.ltb_ge in C2.
+  destruct (Z.even m); [left | right]; lia.
+Qed.
+
+Lemma rint_down m d p : 0 < d -> 0 <= p < d ->
+  (rint (m * d - p) d = m /\ 2 * p <= d) \/ (rint (m * d - p) d = m - 1 /\ d <= 2 * p).
+Proof.
+  intros Hd Hp. destruct (Z.eq_dec p 0) as [-> | Hp0].
+  - left. replace (m * d - 0) with (m * d + 0) by lia. rewrite rint_frac by lia.
+    replace (2 * 0 <? d) with true by (symmetry; apply Z.ltb_lt; lia). lia.
+  - replace (m * d - p) with ((m - 1) * d + (d - p)) by ring.
+    destruct (rint_up (m - 1) d (d - p)) as [[H1 H2] | [H1 H2]]; try lia.
+Qed.
+
+(* the two candidate positions around x *)
+Lemma near_pos xp x j d p : asc xp = true -> (S j < length xp)%nat ->
+  nth j xp 0 + p = x -> nth (S j) xp 0 = nth j xp 0 + d -> 0 <= p < d ->
+  (2 * p <= d -> forall c, In c xp -> Z.abs (x - nth j xp 0) <= Z.abs (x - c))
+  /\ (d <= 2 * p -> forall c, In c xp -> Z.abs (x - nth (S j) xp 0) <= Z.abs (x - c)).
+Proof.
+  intros Ha Hj Hn Hn' Hp.
+  split; intros H c Hin; destruct (asc_In_cases xp j c Ha Hin Hj); lia.
+Qed.
+
+Lemma nearest_ok_rev cs x j : (j < length cs)%nat ->
+  (forall c, In c (rev cs) -> Z.abs (x - nth j (rev cs) 0) <= Z.abs (x - c)) ->
+  nearest_ok cs x (Z.of_nat (length cs) - 1 - Z.of_nat j) = true.
+Proof.
+  intros Hj H. unfold nearest_ok, valid_idx, nthZ, absd.
+  replace (Z.to_nat (Z.of_nat (length cs) - 1 - Z.of_nat j)) with (length cs - S j)%nat by lia.
+  rewrite <- rev_nth by auto.
+  apply andb_true_iff; split.
+  - apply andb_true_iff; split; [apply Z.leb_le | apply Z.ltb_lt]; lia.
+  - apply forallb_forall. intros c Hc. apply Z.leb_le. apply H. apply in_rev in Hc. exact Hc.
+Qed.
+
+Lemma nearest_desc cm lnan rnan cs de x :
+  desc cs = true -> cs <> [] ->
+  match cell_one MNearest cm lnan rnan true cs de x with
+  | Idx i => nearest_ok cs x i = true
+             \/ (i = INT_MIN /\ cm <> CMask /\ nan_out lnan rnan (last cs 0) (hd 0 cs) x)
+  | Masked => cm = CMask /\ nan_out lnan rnan (last cs 0) (hd 0 cs) x
+  end.
+Proof.
+  intros Hd Hne.
+  assert (Hlen : (0 < length cs)%nat) by (destruct cs; [congruence | cbn; lia]).
+  pose proof (desc_rev_asc _ Hd) as Ha.
+  assert (Hne' : rev cs <> []).
+  { intros E. apply (f_equal (@length Z)) in E. rewrite rev_length in E. cbn in E. lia. }
+  unfold cell_one, fidx_one, to_cell, interp1. cbn [is_bounds is_exact andb].
+  rewrite rev_zseq, hd_rev, last_rev. cbn [Z.add].
+  set (n := length cs) in *.
+  assert (Hrl : length (rev cs) = n) by apply rev_length.
+  destruct (hd 0 cs <? x) eqn:E1.
+  { apply Z.ltb_lt in E1. destruct rnan.
+    - destruct cm; [right | | right]; unfold nan_out; repeat split; auto; try discriminate.
+    - left. rewrite zdown_last, rint_int by lia.
+      replace (Z.of_nat n - 1 - Z.of_nat n + 1) with (Z.of_nat n - 1 - Z.of_nat (n - 1)) by lia.
+      apply nearest_ok_rev; [lia|]. intros c Hc. fold n. rewrite <- Hrl at 1.
+      rewrite nth_last_Z, last_rev by auto.
+      pose proof (asc_In_bounds _ _ Ha Hc) as B. rewrite last_rev in B. lia. }
+  apply Z.ltb_ge in E1.
+  destruct (x <? last cs 0) eqn:E2.
+  { apply Z.ltb_lt in E2. destruct lnan.
+    - destruct cm; [right | | right]; unfold nan_out; repeat split; auto; try discriminate.
+    - left. rewrite zdown_hd, rint_int by lia.
+      replace (Z.of_nat n - 1) with (Z.of_nat n - 1 - Z.of_nat 0) by lia.
+      apply nearest_ok_rev; [lia|]. intros c Hc.
+      replace (nth 0 (rev cs) 0) with (hd 0 (rev cs)) by (destruct (rev cs); reflexivity).
+      pose proof (asc_In_bounds _ _ Ha Hc) as B. rewrite hd_rev in *. lia. }
+  apply Z.ltb_ge in E2.
+  destruct (Z.eq_dec x (hd 0 cs)) as [Hl | Hl].
+  - rewrite <- Hrl. rewrite seg_last_d by (auto; rewrite last_rev; auto). left. rewrite rint_int.
+    rewrite Hrl.
+    replace (Z.of_nat n - 1 - Z.of_nat n + 1) with (Z.of_nat n - 1 - Z.of_nat (n - 1)) by lia.
+    apply nearest_ok_rev; [lia|]. intros c Hc. fold n. rewrite <- Hrl at 1.
+    rewrite nth_last_Z, last_rev by auto.
+    pose proof (asc_In_bounds _ _ Ha Hc) as B. rewrite last_rev in B. lia.
+  - destruct (seg_canon_d (rev cs) (Z.of_nat n - 1) x Ha) as (j & d & p & Hs & Hd' & Hp & Hj & Hn & Hn').
+    { rewrite hd_rev, last_rev. lia. }
+    rewrite Hrl in Hs, Hj. rewrite Hs. left.
+    destruct (near_pos (rev cs) x j d p Ha ltac:(lia) Hn Hn' Hp) as [N1 N2].
+    destruct (rint_down (Z.of_nat n - 1 - Z.of_nat j) d p Hd' Hp) as [[R1 R2] | [R1 R2]]; rewrite R1.
+    + apply nearest_ok_rev; [lia|]. auto.
+    + replace (Z.of_nat n - 1 - Z.of_nat j - 1) with (Z.of_nat n - 1 - Z.of_nat (S j)) by lia.
+      apply nearest_ok_rev; [lia|]. auto.
+Qed.
+
+(* ---- bounds, descending edges ---------------------------------------------------------- *)
+Lemma contains_rev es x j : (S j < length es)%nat ->
+  nth j (rev es) 0 <= x <= nth (S j) (rev es) 0 ->
+  contains (pairs es) x (Z.of_nat (length es) - 2 - Z.of_nat j) = true.
+Proof.
+  intros Hj Hx. rewrite !rev_nth in Hx by lia.
+  unfold contains, valid_idx.
+  replace (Z.to_nat (Z.of_nat (length es) - 2 - Z.of_nat j)) with (length es - S (S j))%nat by lia.
+  rewrite pairs_length, nth_pairs by lia.
+  replace (S (length es - S (S j))) with (length es - S j)%nat by lia.
+  unfold cell_lo, cell_hi; cbn [fst snd].
+  repeat (apply andb_true_iff; split); try apply Z.leb_le; try apply Z.ltb_lt; lia.
+Qed.
+
+Lemma rev_ne (l : list Z) : l <> [] -> rev l <> [].
+Proof. intros H E. apply (f_equal (@length Z)) in E. rewrite rev_length in E. destruct l; [congruence | discriminate]. Qed.
+
+Lemma bounds_desc cm lnan rnan dv es x :
+  desc es = true -> length es = S (length dv) -> (0 < length dv)%nat ->
+  match cell_one MBounds cm lnan rnan true dv es x with
+  | Idx i => contains (pairs es) x i = true
+       \/ (x < last es 0 /\ lnan = false /\ i = lenZ dv - 1)
+       \/ (hd 0 es < x /\ rnan = false /\ i = 0)
+       \/ (i = INT_MIN /\ cm <> CMask /\ nan_out lnan rnan (last es 0) (hd 0 es) x)
+  | Masked => cm = CMask /\ nan_out lnan rnan (last es 0) (hd 0 es) x
+  end.
+Proof.
+  intros Hd Hlen Hdv.
+  assert (Hne : es <> []) by (destruct es; [discriminate | congruence]).
+  pose proof (desc_rev_asc _ Hd) as Ha. pose proof (rev_ne _ Hne) as Hne'.
+  unfold cell_one, fidx_one, to_cell, interp1, lenZ. cbn [is_bounds is_exact andb].
+  fold (cidx (Z.of_nat (length dv) - 1) (length es)).
+  set (B := Z.of_nat (length dv) - 1). assert (HB : 0 <= B) by (unfold B; lia).
+  set (len := length es) in *.
+  assert (Hcl : length (rev (cidx B len)) = length (rev es))
+    by (rewrite !rev_length; apply cidx_length).
+  assert (Hnr : forall j, (j < len)%nat -> nth j (rev (cidx B len)) 0 = Z.min B (Z.of_nat (len - S j))).
+  { intros j Hj. rewrite rev_nth by (rewrite cidx_length; lia). rewrite cidx_length. apply nth_cidx; lia. }
+  assert (Hrl : length (rev es) = len) by apply rev_length.
+  rewrite hd_rev, last_rev.
+  destruct (hd 0 es <? x) eqn:E1.
+  { apply Z.ltb_lt in E1. destruct rnan.
+    - destruct cm; [right; right; right | | right; right; right];
+        unfold nan_out; repeat split; auto; try discriminate.
+    - right; right; left. repeat split; auto.
+      rewrite last_rev.
+      replace (hd 0 (cidx B len)) with (nth 0 (cidx B len) 0) by (destruct (cidx B len); reflexivity).
+      rewrite nth_cidx by lia. rewrite Z.quot_1_r. lia. }
+  apply Z.ltb_ge in E1.
+  destruct (x <? last es 0) eqn:E2.
+  { apply Z.ltb_lt in E2. destruct lnan.
+    - destruct cm; [right; right; right | | right; right; right];
+         unfold nan_out; repeat split; auto; try discriminate.
+    - right; left. repeat split; auto.
+      rewrite hd_rev.
+      rewrite <- (nth_last_Z (cidx B len)) by (intros E; apply (f_equal (@length Z)) in E; rewrite cidx_length in E; cbn in E; lia).
+      rewrite cidx_length, nth_cidx by lia. rewrite Z.quot_1_r. unfold B. lia. }
+  apply Z.ltb_ge in E2.
+  destruct (Z.eq_dec x (hd 0 es)) as [Hl | Hl].
+  - rewrite seg_last_gen by (auto; rewrite last_rev; auto).
+    rewrite last_rev.
+    replace (hd 0 (cidx B len)) with (nth 0 (cidx B len) 0) by (destruct (cidx B len); reflexivity).
+    rewrite nth_cidx by lia. left. rewrite Z.quot_1_r.
+    replace (Z.min B (Z.of_nat 0)) with (Z.of_nat len - 2 - Z.of_nat (len - 2)) by lia.
+    apply contains_rev; [lia|].
+    replace (S (len - 2)) with (length (rev es) - 1)%nat by lia.
+    rewrite nth_last_Z, last_rev by auto. split; [|lia].
+    rewrite Hl, <- last_rev, <- (nth_last_Z (rev es) Hne'). apply asc_nth_le; auto. lia.
+  - destruct (seg_gen (rev es) (rev (cidx B len)) x Ha Hcl) as (j & d & p & Hs & Hd' & Hp & Hj & Hn & Hn').
+    { rewrite hd_rev, last_rev. lia. }
+    rewrite Hrl in Hj. rewrite Hs, !Hnr by lia. left.
+    destruct j as [|j].
+    + (* lowest cell: both ends of the segment carry index n-1 *)
+      replace (Z.min B (Z.of_nat (len - 1))) with B by (unfold B; lia).
+      replace (Z.min B (Z.of_nat (len - 2))) with B by (unfold B; lia).
+      replace (B * d + (B - B) * p) with (B * d + 0) by ring. rewrite quot_frac by lia.
+      replace B with (Z.of_nat len - 2 - Z.of_nat 0) by (unfold B; lia).
+      apply contains_rev; lia.
+    + replace (Z.min B (Z.of_nat (len - S (S j)))) with (Z.of_nat len - 2 - Z.of_nat j) by (unfold B; lia).
+      replace (Z.min B (Z.of_nat (len - S (S (S j))))) with (Z.of_nat len - 2 - Z.of_nat j - 1) by (unfold B; lia).
+      set (m := Z.of_nat len - 2 - Z.of_nat j).
+      destruct (Z.eq_dec p 0) as [-> | Hp0].
+      * replace (m * d + (m - 1 - m) * 0) with (m * d + 0) by ring.
+        rewrite quot_frac by (unfold m; lia). unfold m. apply contains_rev; [lia|].
+        split; [|lia]. rewrite <- Hn, Z.add_0_r. apply asc_nth_le; auto. lia.
+      * replace (m * d + (m - 1 - m) * p) with ((m - 1) * d + (d - p)) by ring.
+        rewrite quot_frac by (unfold m; lia).
+        replace (m - 1) with (Z.of_nat len - 2 - Z.of_nat (S j)) by (unfold m; lia).
+        apply contains_rev; lia.
+Qed.
+
+(* ---- exact, descending coordinate -------------------------------------------------------- *)
+Lemma exact_ok_rev cs x j : (j < length cs)%nat -> nth j (rev cs) 0 = x ->
+  exact_ok cs x (Z.of_nat (length cs) - 1 - Z.of_nat j) = true.
+Proof.
+  intros Hj H. rewrite rev_nth in H by auto. unfold exact_ok, valid_idx, nthZ.
+  replace (Z.to_nat (Z.of_nat (length cs) - 1 - Z.of_nat j)) with (length cs - S j)%nat by lia.
+  repeat (apply andb_true_iff; split); try apply Z.leb_le; try apply Z.ltb_lt;
+    try apply Z.eqb_eq; lia.
+Qed.
+
+Lemma exact_desc cm lnan rnan cs de x :
+  desc cs = true -> cs <> [] ->
+  match cell_one MExact cm lnan rnan true cs de x with
+  | Idx i => exact_ok cs x i = true
+  | Masked => memZ x cs = false
+  end.
+Proof.
+  intros Hd Hne.
+  assert (Hlen : (0 < length cs)%nat) by (destruct cs; [congruence | cbn; lia]).
+  pose proof (desc_rev_asc _ Hd) as Ha. pose proof (rev_ne _ Hne) as Hne'.
+  unfold cell_one, fidx_one, to_cell. cbn [is_bounds is_exact andb].
+  destruct (memZ x cs) eqn:M; cbn [negb]; [|reflexivity].
+  unfold memZ in M. apply existsb_exists in M as (c & Hin & Hc). apply Z.eqb_eq in Hc. subst c.
+  apply in_rev in Hin.
+  pose proof (asc_In_bounds _ _ Ha Hin) as Hb. unfold interp1.
+  replace (last (rev cs) 0 <? x) with false by (symmetry; apply Z.ltb_ge; lia).
+  replace (x <? hd 0 (rev cs)) with false by (symmetry; apply Z.ltb_ge; lia).
+  rewrite rev_zseq. cbn [Z.add].
+  assert (Hrl : length (rev cs) = length cs) by apply rev_length.
+  destruct (Z.eq_dec x (last (rev cs) 0)) as [Hl | Hl].
+  - rewrite <- Hrl. rewrite seg_last_d by auto. rewrite Z.quot_1_r, Hrl.
+    replace (Z.of_nat (length cs) - 1 - Z.of_nat (length cs) + 1)
+      with (Z.of_nat (length cs) - 1 - Z.of_nat (length cs - 1)) by lia.
+    apply exact_ok_rev; [lia|]. rewrite <- Hrl, nth_last_Z; auto.
+  - rewrite <- Hrl.
+    destruct (seg_canon_d (rev cs) (Z.of_nat (length (rev cs)) - 1) x Ha) as (j & d & p & Hs & Hd' & Hp & Hj & Hn & Hn'); [lia|].
+    rewrite Hs. rewrite Hrl in *.
+    assert (p = 0) by (destruct (asc_In_cases (rev cs) j x Ha Hin ltac:(lia)); lia). subst p.
+    replace ((Z.of_nat (length cs) - 1 - Z.of_nat j) * d - 0)
+      with ((Z.of_nat (length cs) - 1 - Z.of_nat j) * d + 0) by ring.
+    rewrite quot_frac by lia. apply exact_ok_rev; lia.
+Qed.
+
+(* ==== both directions ====================================================================== *)
+Lemma nearest_both dsc cm lnan rnan cs de x :
+  mono dsc cs = true -> cs <> [] ->
+  match cell_one MNearest cm lnan rnan dsc cs de x with
+  | Idx i => nearest_ok cs x i = true
+             \/ (i = INT_MIN /\ cm <> CMask /\ nan_out lnan rnan (lo_of dsc cs) (hi_of dsc cs) x)
+  | Masked => cm = CMask /\ nan_out lnan rnan (lo_of dsc cs) (hi_of dsc cs) x
+  end.
+Proof. destruct dsc; cbn [mono lo_of hi_of]; [apply nearest_desc | apply nearest_asc]. Qed.
+
+Lemma bounds_both dsc cm lnan rnan dv es x :
+  mono dsc es = true -> length es = S (length dv) -> (0 < length dv)%nat ->
+  match cell_one MBounds cm lnan rnan dsc dv es x with
+  | Idx i => contains (pairs es) x i = true
+       \/ (x < lo_of dsc es /\ lnan = false /\ i = (if dsc then lenZ dv - 1 else 0))
+       \/ (hi_of dsc es < x /\ rnan = false /\ i = (if dsc then 0 else lenZ dv - 1))
+       \/ (i = INT_MIN /\ cm <> CMask /\ nan_out lnan rnan (lo_of dsc es) (hi_of dsc es) x)
+  | Masked => cm = CMask /\ nan_out lnan rnan (lo_of dsc es) (hi_of dsc es) x
+  end.
+Proof. destruct dsc; cbn [mono lo_of hi_of]; [apply bounds_desc | apply bounds_asc]. Qed.
+
+Lemma exact_both dsc cm lnan rnan cs de x :
+  mono dsc cs = true -> cs <> [] ->
+  match cell_one MExact cm lnan rnan dsc cs de x with
+  | Idx i => exact_ok cs x i = true
+  | Masked => memZ x cs = false
+  end.
+Proof. destruct dsc; cbn [mono]; [apply exact_desc | apply exact_asc]. Qed.
+
+(* ---- whole call ----------------------------------------------------------------------------- *)
 Lemma asc_not_all_neg l : asc l = true -> (2 <= length l)%nat -> all_neg (diffs l) = false.
 Proof.
   destruct l as [|a [|b l]]; cbn [length]; try lia. intros H _.
@@ -326,12 +739,11 @@ Proof.
   replace (b - a <? 0) with false; [reflexivity|]. symmetry; apply Z.ltb_ge; lia.
 Qed.
 
-Lemma impl_asc_form c xs s dv de :
-  bad_opts c = false -> prep c = inr (s, dv, de) -> asc de = true -> (2 <= length de)%nat ->
-  c_scalar c = false ->
+Lemma impl_form c xs s dv de dsc :
+  bad_opts c = false -> prep c = inr (s, dv, de) -> mono dsc de = true -> (2 <= length de)%nat ->
   let xs' := map (Z.mul s) xs in
-  let cells := map (cell_one (c_m c) (c_c c) (c_lnan c) (c_rnan c) false dv de) xs' in
-  let out := existsb (is_out de) xs' in
+  let cells := map (cell_one (c_m c) (c_c c) (c_lnan c) (c_rnan c) dsc dv de) xs' in
+  let out := existsb (fun x => (x <? lo_of dsc de) || (hi_of dsc de <? x)) xs' in
   impl_val2idx c xs =
   match c_b c with
   | BError => if out then Raised EOutOfBounds else Done cells false dv
@@ -339,8 +751,44 @@ Lemma impl_asc_form c xs s dv de :
   | _ => Done cells false dv
   end.
 Proof.
-  intros Hb Hp Ha Hl Hs. unfold impl_val2idx. rewrite Hb, Hp, Hs.
-  rewrite (asc_not_all_neg _ Ha Hl). unfold asc in Ha. rewrite Ha. reflexivity.
+  intros Hb Hp Hm Hl. unfold impl_val2idx. rewrite Hb, Hp. destruct dsc; cbn [mono lo_of hi_of] in *.
+  - unfold desc in Hm. rewrite Hm. unfold is_out. rewrite hd_rev, last_rev. reflexivity.
+  - rewrite (asc_not_all_neg _ Hm Hl). unfold asc in Hm. rewrite Hm. reflexivity.
+Qed.
+
+(* the call never changes the coordinate variable *)
+Lemma coord_unchanged c xs r w co :
+  impl_val2idx c xs = Done r w co -> co = map (Z.mul (scale_of c)) (c_cs c).
+Proof.
+  unfold impl_val2idx, prep, scale_of, derive_edges.
+  destruct (bad_opts c); [discriminate|].
+  assert (Hid : map (Z.mul 1) (c_cs c) = c_cs c).
+  { induction (c_cs c) as [|a l IH]; cbn [map]; [reflexivity|]. rewrite IH. f_equal. lia. }
+  assert (G : forall s dv de, dv = map (Z.mul s) (c_cs c) ->
+     (let d := diffs de in
+      let run := fun dsc : bool =>
+        let xs' := map (Z.mul s) xs in
+        let cells := map (cell_one (c_m c) (c_c c) (c_lnan c) (c_rnan c) dsc dv de) xs' in
+        let out := existsb (is_out (if dsc then rev de else de)) xs' in
+        match c_b c with
+        | BError => if out then Raised EOutOfBounds else Done cells false dv
+        | BWarn => Done cells out dv
+        | _ => Done cells false dv
+        end in
+      if all_neg d then run true else if all_pos d then run false else Raised ENotMono) = Done r w co ->
+     co = map (Z.mul s) (c_cs c)).
+  { intros s dv de Hdv. cbv zeta.
+    destruct (all_neg (diffs de)); [|destruct (all_pos (diffs de)); [|discriminate]];
+      (destruct (c_b c); try destruct (existsb _ _); intros H; inversion H; subst; auto). }
+  destruct (c_bv c) as [|es|rs]; cbn [edges_of_bvar].
+  - destruct (c_m c).
+    + apply G. auto.
+    + destruct (diffs (c_cs c)) eqn:Ed; [discriminate|].
+      destruct (uniform (z :: l)); apply G; reflexivity.
+    + apply G. auto.
+    + apply G. auto.
+  - destruct (c_m c); apply G; auto.
+  - destruct (c_m c); apply G; auto.
 Qed.
 
 (* the three bounds representations feed the same edge list *)
@@ -361,25 +809,11 @@ Proof.
     rewrite IH by (auto; congruence). destruct p; cbn [fst snd] in *. subst. reflexivity.
 Qed.
 
-Lemma derive_nonuniform isint cs :
-  uniform (diffs cs) = false ->
-  derive_edges isint cs = inr (map (Z.mul 2) cs, natural_edges cs).
+Lemma derive_natural cs : (2 <= length cs)%nat ->
+  derive_edges cs = inr (map (Z.mul 2) cs, natural_edges cs).
 Proof.
-  intros H. unfold derive_edges, natural_edges. rewrite H.
-  destruct (diffs cs); [discriminate | reflexivity].
-Qed.
-
-(* descending: everything above the smallest coordinate value collapses to index 0 *)
-Lemma desc_collapses cm cs de x :
-  last cs 0 < x ->
-  cell_one MNearest cm false false true cs de x = Idx (last (rev (zseq 0 (length cs))) 0).
-Proof.
-  intros H. unfold cell_one, fidx_one, to_cell, interp1. cbn [is_bounds is_exact andb].
-  replace (last cs 0 <? x) with true by (symmetry; apply Z.ltb_lt; lia).
-  rewrite rint_int. reflexivity.
-Qed.
-
-Lemma last_rev_zseq n : (0 < n)%nat -> last (rev (zseq 0 n)) 0 = 0.
-Proof.
-  destruct n; [lia|]. intros _. rewrite zseq_S. cbn [rev]. apply last_last.
+  intros H. unfold derive_edges, natural_edges.
+  assert (Hd : diffs cs <> []) by (destruct cs as [|a [|b l]]; cbn [length] in H; try lia; discriminate).
+  destruct (diffs cs) as [|d0 d]; [congruence|].
+  destruct (uniform (d0 :: d)); reflexivity.
 Qed.
